@@ -85,6 +85,11 @@ func (p *RetryPolicy) Wrap(handler HandlerFunc) HandlerFunc {
 				return err
 			case <-time.After(time.Duration(d)):
 			}
+			// both cases may be ready at once: never start another attempt
+			// for a request that has been cancelled.
+			if ctx.Err() != nil {
+				return err
+			}
 			if p.BackOffPolicy == "exponential" {
 				base *= 1.5
 			}
